@@ -674,6 +674,7 @@ class IntervalStoreMonitor(object):
 TAPPED = ['mpf_exp', 'mpf_log', 'mpf_sqrt', 'mpf_atan', 'mpf_atan2', 'mpf_pow_int', 'mpf_add', 'mpf_sub', 'mpf_mul',
           'mpf_div', 'mpf_pos', 'mpf_neg', 'mpf_gamma', 'mpc_gamma', 'from_str', 'from_int', 'from_float',
           'from_rational', 'mpf_cos_sin']
+TAPPED_INTERVAL = ['mpi_atan2']      # interval-level routines checked in isolation (localisation of shared defects)
 
 
 class PrimitiveTap(object):
@@ -685,7 +686,7 @@ class PrimitiveTap(object):
         from vf.instrument import ReturnTap
         import mpmath.libmp as L
         codes = {}
-        for n in TAPPED:
+        for n in TAPPED + TAPPED_INTERVAL:
             f = getattr(L, n, None)
             if f is None:
                 import mpmath.libmp.gammazeta as GZ
@@ -725,7 +726,10 @@ class PrimitiveTap(object):
             c, n, args = st.pop()
             if c is code:
                 rnd = args.get('rnd')
-                if rnd in ('f', 'c', 'u') and isinstance(args.get('prec'), int):
+                if n in TAPPED_INTERVAL:
+                    self.records.append((n, args, ret, len(st)))
+                    self.nrec += 1
+                elif rnd in ('f', 'c', 'u') and isinstance(args.get('prec'), int):
                     self.records.append((n, args, ret, len(st)))
                     self.nrec += 1
                 return
@@ -826,7 +830,14 @@ def check_records(records, consensus=None, cap_prec=1200):
     """evaluate tap records innermost-first; returns list of (name, args, result, verdict, excess_ulps)"""
     out = []
     for name, args, ret, depth in records:
+        if name == 'mpi_atan2':
+            out.append(_check_mpi_atan2(args, ret))
+            continue
         prec, rnd = args['prec'], args['rnd']
+        if name == 'mpc_gamma':
+            if consensus is not None and prec <= cap_prec:
+                out.append(_check_mpc_gamma(args, ret, consensus))
+            continue
         if not isinstance(ret, tuple) or len(ret) != 4 or prec > cap_prec:
             continue
         verdict, exc = 'skip', None
@@ -853,10 +864,79 @@ def check_records(records, consensus=None, cap_prec=1200):
     return out
 
 
+def _check_mpi_atan2(args, ret):
+    """mpi_atan2(y, x, prec) in isolation: inverted result, or a corner / axis / centre point whose angle is outside"""
+    try:
+        y, x, prec = args['y'], args['x'], args['prec']
+        a, b = ret
+        if is_nan(a) or is_nan(b) or raw_cmp(a, b) > 0:
+            return ('mpi_atan2', args, ret, 'violated', None)
+        ys = [dy(t) for t in y if is_fin(t)]
+        xs = [dy(t) for t in x if is_fin(t)]
+        for lst, (lo, hi) in ((ys, y), (xs, x)):
+            fin = list(lst)
+            top = max([abs(d[0]).bit_length() + d[1] for d in fin] + [0]) + 64
+            if lo == fninf:
+                lst.append(dsub(fin[0], (1, 60)) if fin else (-1, 60))
+                lst.append((-1, top))
+            if hi == finf:
+                lst.append(dadd(fin[-1], (1, 60)) if fin else (1, 60))
+                lst.append((1, top))
+            if lo == fninf and hi == finf:
+                lst.append((0, 0))
+        if len(ys) == 2 and ys[0][0] < 0 < ys[1][0]:
+            ys.append((0, 0))
+        if len(ys) == 2:
+            ys.append(dnorm((dadd(ys[0], ys[1])[0], dadd(ys[0], ys[1])[1] - 1)))
+        if len(xs) == 2:
+            xs.append(dnorm((dadd(xs[0], xs[1])[0], dadd(xs[0], xs[1])[1] - 1)))
+        for yy in ys:
+            for xx in xs:
+                if yy[0] == 0 and xx[0] == 0:
+                    continue
+                v, det = decide_point([ret], (lambda wp: o_atan2(yy, xx)), prec)
+                if v == 'violated':
+                    return ('mpi_atan2', args, ret, 'violated', det.get('excess_ulps'))
+        return ('mpi_atan2', args, ret, 'held', None)
+    except Exception:
+        return ('mpi_atan2', args, ret, 'skip', None)
+
+
+def _check_mpc_gamma(args, ret, consensus):
+    """directed complex gamma-family result (both parts rounded in the same direction) against the consensus enclosure"""
+    prec, rnd = args['prec'], args['rnd']
+    verdict, exc = 'skip', None
+    try:
+        (a, b) = args['z']
+        re, im = ret
+        if not (is_fin(a) and is_fin(b) and is_fin(re) and is_fin(im)):
+            return ('mpc_gamma', args, ret, 'skip', None)
+        fn = {0: 'gamma', 1: 'factorial', 2: 'rgamma', 3: 'loggamma'}[args.get('type', 0)]
+        for pp in (prec, 2 * prec + 64):
+            E, why = consensus.enclose(fn, (dy(a), dy(b)), pp, complex_arg=True)
+            if E is None:
+                break
+            vs = [_dir_verdict(c, P_, rnd) for c, P_ in ((re, E.re), (im, E.im))]
+            if 'violated' in vs:
+                i = vs.index('violated')
+                c, P_ = ((re, E.re), (im, E.im))[i]
+                ceil_like = (rnd == 'c') or (rnd == 'u' and not c[0])
+                exc = excess_ulps(c, c, P_, 'above' if ceil_like else 'below', prec)
+                verdict = 'violated'
+                break
+            if all(v == 'held' for v in vs):
+                verdict = 'held'
+                break
+            verdict = 'undecided'
+    except Exception:
+        verdict = 'skip'
+    return ('mpc_gamma', args, ret, verdict, exc)
+
+
 def excess_class(exc):
     """a priori two-cell partition of a wrong-side directed result: within the guard bits of the correct side
-    (< 1/4 ulp: an approximation rounded without an error margin) or off by a visible amount"""
-    if exc is not None and exc == exc and exc < 0.25:
+    (< 1/2 ulp relative*2^prec: an approximation rounded without an error margin) or off by a visible amount"""
+    if exc is not None and exc == exc and exc < 0.5:
         return 'excess-beyond-guard-bits'
     return 'wrong-side-by-ulps'
 
@@ -895,6 +975,8 @@ def regime(name, a):
             return 'reciprocal' if mag >= 2 else 'basic'
         if name == 'mpf_atan2':
             return 'x<0' if a['x'][0] else 'x>0'
+        if name == 'mpi_atan2':
+            return sign_class(*a['y']).replace('inf', '') + ':' + sign_class(*a['x']).replace('inf', '')
         if name == 'mpf_pow_int':
             n = int(a['n'])
             s, m, e, bc = a['s']
